@@ -149,6 +149,11 @@ def shapes(tier, seed):
                     add(eng, node3, p3, labs + labs2)
             except IllTyped:
                 pass
+    # trees whose markers already carry payloads (processed before): what a later factory call returns must still execute to rows
+    # with exactly its columns (machinery shared with C03 / C15)
+    from . import c03
+    pp = [p for p in c03.processed_programs(tier) if any(k in repr(p) for k in ("'proj'", "'slice'", "'dedup'", "'sel'"))][::3]
+    out += [{"processed": pp[i:i + 12], "kind": "processed"} for i in range(0, len(pp), 12)]
     # the compiled SQL's row count against the static bounds (leaf bounds fixed to the truthful 0..unbounded: the subject here is
     # the statement the engine emits, e.g. LIMIT/OFFSET boundary cases)
     seen = set()
@@ -200,6 +205,9 @@ def _history(env, prog, used, eng):
 def run_shape(shape, tier):
     if shape.get("processor"):
         return run_processor_shape(shape)
+    if shape.get("kind") == "processed":
+        from . import c03
+        return c03.run_processed_shape(shape)
     prog = shape["prog"]
     eng = shape["eng"]
     n = shape["n"]
@@ -380,6 +388,9 @@ def concrete_check(prog, eng, rows, decl, bind):
 
 def replay(v):
     r = v["replay"]
+    if r.get("processed"):
+        from . import c03
+        return c03.replay(v)
     if r.get("processor"):
         sh = r["shape"]
         sh["prog"] = from_jsonable(sh["prog"])
